@@ -18,7 +18,7 @@ pub open spec fn analyze_pre(o: FixtureDatabase, file: PV, text: Seq<char>) -> b
     &&& parse_ok(text) ==> o.version() + 1 + stmts_vdefs(body_of(ast_of(text)), canon(file), text).len() <= u64::MAX
     // v2
     &&& db_inv(o)
-    &&& hash_collides_with_nothing(text)
+    &&& li_no_collision(o.line_index_cache.m(), canon(file), text)   // H-ideal for THIS call (unit memo_keys); implied by hash_collides_with_nothing(text)
 }
 /// the POSTCONDITION PROVED for analyze_file in unit analyze, as a relation between the database before (o) and
 /// after (s).  A restatement of that @sig: it is CHECKED here, not trusted -- each handler proves it from the stub's
